@@ -161,7 +161,7 @@ pub fn check_stream(c: &mut Case, cfg: &DCfg, input: &[u8], out: &[u8], dict: Op
 pub fn run(ctx: &mut Ctx) {
     let fams = dfam::build(ctx.quick());
     let env = Env::new();
-    let sel = dfam::Sel { tiny: true, shapes: true, big: true, shape_cfg_stride: if ctx.quick() { 3 } else { 1 } };
+    let sel = dfam::Sel { tiny: true, shapes: true, big: true, sweep: true, shape_cfg_stride: if ctx.quick() { 3 } else { 1 } };
     dfam::for_each(ctx, &fams, sel, |ctx, it| {
         // the decoded level/strategy in force when the header was written is the initial one
         ctx.case(
